@@ -51,6 +51,13 @@ class Ghost(Inner):
         return object.__getattribute__(self, name)
 
 
+class InstAttr(Inner):
+    """the operation is an attribute of the INSTANCE (a helper attached to a client object, a facade holding bound methods): listed by dir(obj)"""
+    def __init__(self, script, log):
+        super().__init__(script, log)
+        self.op_inst = self.op
+
+
 def subsets(xs):
     for r in range(len(xs) + 1):
         yield from itertools.combinations(xs, r)
@@ -254,6 +261,64 @@ def main(argv):
                 lines.append(model_line(attempts, rf, dnr, seq_))
                 metas.append((case, canon_real(o_, r_, l_), (attempts, rf, dnr, spelling, empty, seq_, True)))
             nh += 1
+    # two calls through ONE RetryingClient that overlap in time (clients are shared between threads; here, deterministically, the wrapped method of
+    # the outer call makes the inner call through the same object during one of its attempts): each call has its own attempt counter
+    class Nesting:
+        def __init__(self):
+            self.rc = None
+            self.cur = None            # the log that receives calls and sleeps at the moment
+
+        def op(self, *a, **kw):
+            lg = self.cur
+            i = self.i1
+            self.i1 += 1
+            lg.append(("call", a, tuple(sorted(kw.items()))))
+            if i == self.nest_at:
+                self.cur = self.log2
+                try:
+                    self.res2 = ("value", self.rc.op2("k", x=1))
+                except Exception as e:
+                    self.res2 = ("raised", e)
+                self.cur = lg
+            o = self.script1[i]
+            if o[0] == "ok":
+                return o[1]
+            raise o[1]
+
+        def op2(self, *a, **kw):
+            i = self.i2
+            self.i2 += 1
+            self.cur.append(("call", a, tuple(sorted(kw.items()))))
+            o = self.script2[i]
+            if o[0] == "ok":
+                return o[1]
+            raise o[1]
+    for attempts in (2, 3, 4):
+        for seq1 in itertools.product(["ok", 0], repeat=attempts):
+            for seq2 in itertools.product(["ok", 0], repeat=attempts):
+                for nest_at in range(attempts):
+                    if nest_at >= len(seq1) or ("ok" in seq1[:nest_at]):
+                        continue          # the outer call never reaches that attempt
+                    if attempts == 4 and not ctx.thorough and (sum(1 for x_ in seq1 if x_ == "ok") + nest_at) % 2:
+                        continue
+                    N = Nesting()
+                    N.script1 = [("ok", ("val", 1, n_)) if o_ == "ok" else ("exc", Base(n_)) for n_, o_ in enumerate(seq1)]
+                    N.script2 = [("ok", ("val", 2, n_)) if o_ == "ok" else ("exc", Sub1(n_)) for n_, o_ in enumerate(seq2)]
+                    N.i1 = N.i2 = 0
+                    N.nest_at, N.log1, N.log2, N.res2 = nest_at, [], [], None
+                    N.cur = N.log1
+                    retrying.sleep = lambda d, _N=N: _N.cur.append(("sleep", d))
+                    N.rc = retrying.RetryingClient(N, attempts=attempts, retry_delay=0.5)
+                    try:
+                        res1 = ("value", N.rc.op("k", x=1))
+                    except Exception as e:
+                        res1 = ("raised", e)
+                    ctx.case(("overlapping", attempts, seq1, seq2, nest_at))
+                    ctx.count("overlapping calls on one client")
+                    for which, seq_, (o_, r_), lg_, sc_ in (("outer", seq1, res1, N.log1, N.script1), ("inner", seq2, N.res2, N.log2, N.script2)):
+                        case = {"attempts": attempts, "retry_for": None, "do_not_retry_for": None, "outer_call_outcomes": list(seq1), "inner_call_outcomes": list(seq2),
+                                "inner_call_made_during_outer_attempt": nest_at, "judged": which}
+                        monitor(ctx, case, attempts, None, None, seq_, 0.5, o_, r_, lg_, sc_)
     # large budgets ("retry every 100 ms for half a minute"): the rule is the same for every value of `attempts`, not only for small ones
     for attempts in (6, 17, 255, 256, 257, 258, 259, 300, 1000, 1025):
         for shape in ("all-fail", "last-succeeds", "middle-succeeds", "not-retryable-late", "first-succeeds"):
@@ -274,6 +339,17 @@ def main(argv):
             monitor(ctx, case, attempts, rf, dnr, tuple(seq), 0.1, outcome, res, log, script)
             lines.append(model_line(attempts, rf, dnr, tuple(seq)))
             metas.append((case, canon_real(outcome, res, log), None))
+    # an operation that is an attribute of the wrapped INSTANCE rather than of its class: dir(client) lists it, so it is retried like any other
+    for attempts in (1, 2, 3):
+        for seq in itertools.product([0, 9, "ok"], repeat=attempts):
+            for rf, dnr in ((None, None), ([0], None), (None, [9])):
+                outcome, res, log, script = run_real(retrying, attempts, rf, dnr, "tuple", seq, 0.5, method="op_inst", inner_cls=InstAttr)
+                case = {"attempts": attempts, "retry_for": rf, "do_not_retry_for": dnr, "outcomes": list(seq), "method_is_an_instance_attribute": True}
+                ctx.case(("instance-attribute", attempts, seq, repr(rf), repr(dnr)))
+                ctx.count("instance-attribute operations")
+                monitor(ctx, case, attempts, rf, dnr, seq, 0.5, outcome, res, log, script)
+                lines.append(model_line(attempts, rf, dnr, seq))
+                metas.append((case, canon_real(outcome, res, log), None))
     # a method reachable but not listed in dir(): never retried
     for attempts in (1, 2, 3):
         for seq in itertools.product([0, "ok"], repeat=attempts):
